@@ -155,6 +155,77 @@ def check(arg: tuple[dict[str, Any], dict[str, Any], int]) -> str | None:
     return None
 
 
+CHAIN_MODELS = ['conv3', 'conv', 'mlp3', 'mixb', 'conv2', 'nd']
+CHAIN_VARIANTS = [
+    dict(param_dtype='float32', factor_dtype='float32'),    # explicit, equal
+    dict(param_dtype='float64', factor_dtype='float64', inv_dtype='float64'),
+    dict(param_dtype='float32', factor_dtype=None),
+    dict(param_dtype='float32', factor_dtype='float64'),
+    dict(param_dtype='float64', factor_dtype='float32'),
+]
+
+
+def check_chain(arg: tuple[str, dict, str, int]) -> str | None:
+    """Frame scenario on chained models (every layer's input is the output of
+    an upstream op that saved it for backward)."""
+    from harness import kaisa
+    from harness.refreplay import state_digest
+
+    model_name, var, method, seed = arg
+    cfg = kaisa.Config(model=model_name, method=method,
+                       prediv=(method == 'eigen'), damping=0.05, **var)
+    dtype = kaisa.DT[cfg.param_dtype]
+    model = kaisa.make_model(model_name, seed, dtype)
+    x, y = kaisa.make_batch(cfg, seed, 0, 0, 0, dtype)
+
+    def fb(train: bool):
+        model.train(train)
+        model.zero_grad(set_to_none=True)
+        out = model(x)
+        kaisa.loss_fn(out, y, cfg.batch, None).backward()
+        return out.detach().clone(), {
+            n: p.grad.detach().clone() for n, p in model.named_parameters()}
+
+    out0, g0 = fb(True)
+    pre = kaisa.build_precond(cfg, model)
+    try:
+        out1, g1 = fb(True)
+    except RuntimeError as e:
+        return f'forward/backward fails once K-FAC is registered: {str(e)[:150]}'
+    if not same(out0, out1):
+        return 'model output changed by registering K-FAC'
+    for n in g0:
+        if not same(g0[n], g1[n]):
+            return f'autograd gradient of {n} changed by registering K-FAC'
+    before = snap(model)
+    pre.step()
+    after = snap(model)
+    for n in before['p']:
+        if not same(before['p'][n], after['p'][n]):
+            return f'parameter {n} changed by step()'
+        if before['gid'][n] != after['gid'][n]:
+            return f'gradient metadata of {n} changed'
+        if not torch.isfinite(after['g'][n]).all():
+            return f'gradient of {n} not finite after step()'
+
+    class RR:
+        pass
+    rr = RR()
+    rr.pre = pre
+    rr.registered = lambda: list(pre._layers.values())
+    dig = state_digest(rr)
+    fb(False)
+    if state_digest(rr) != dig:
+        return 'K-FAC state changed by an eval-mode pass'
+    try:
+        fb(True)
+        pre.step()
+        fb(True)
+    except RuntimeError as e:
+        return f'second iteration fails: {str(e)[:150]}'
+    return None
+
+
 def chunk(args: list[tuple]) -> list[tuple[str, Any]]:
     out = []
     for a in args:
@@ -165,6 +236,13 @@ def chunk(args: list[tuple]) -> list[tuple[str, Any]]:
         if msg:
             out.append((msg, a))
     return out
+
+
+def _chain_one(a: tuple) -> str | None:
+    try:
+        return check_chain(a)
+    except Exception as e:  # noqa: BLE001
+        return f'exception {type(e).__name__}: {e}'[:300]
 
 
 def main(tier: str, seed: int) -> int:
@@ -201,13 +279,24 @@ def main(tier: str, seed: int) -> int:
             v.violation(f'{msg} :: variant {a[1]} tree {json.dumps(a[0])[:300]}',
                         {'kind': 'frame', 'msg': ' '.join(msg.split(' ')[:3])},
                         replay={'tree': a[0], 'variant': a[1], 'seed': a[2]})
+    chain_jobs = [(m, vv, meth, seed + i)
+                  for i, m in enumerate(CHAIN_MODELS)
+                  for vv in CHAIN_VARIANTS
+                  for meth in ('eigen', 'inverse')]
+    cres = pmap(_chain_one, chain_jobs)
+    for a, msg in zip(chain_jobs, cres):
+        if msg:
+            v.violation(f'{msg} :: chained model {a[0]} variant {a[1]} {a[2]}',
+                        {'kind': 'frame', 'msg': ' '.join(msg.split(' ')[:3])},
+                        replay={'chain': list(a)})
     nontriv = {chash(d) for d in ts if any(
         lf['kind'] in ('bn', 'act') or lf['frozen'] != 'none'
         for lf in d['leaves'])}
     v.coverage = {
         'states': max(r.distinct + sr.distinct, 1),
         'transitions': max(r.generated + sr.generated, 1),
-        'traces_validated_against_impl': len(jobs),
+        'traces_validated_against_impl': len(jobs) + len(chain_jobs),
+        'chained_model_cases': len(chain_jobs),
         'samples': [ts[0]] if ts else ['none'],
         'evaluations': len(jobs),
         'distinct_nontrivial': len(nontriv),
@@ -225,6 +314,10 @@ def main(tier: str, seed: int) -> int:
 def replay(path: str) -> int:
     rec = json.load(open(path))
     rp = rec['replay']
+    if 'chain' in rp:
+        msg = check_chain(tuple(rp['chain']))
+        print(msg)
+        return 1 if msg else 0
     msg = check((rp['tree'], rp['variant'], rp['seed']))
     print(msg)
     return 1 if msg else 0
